@@ -1700,7 +1700,9 @@ pub struct TypedClaims {
     pub choice: TypedChoice,
     pub list: Vec<u128>,
     pub table: std::collections::BTreeMap<String, i128>,
-    pub unordered: std::collections::HashMap<String, u64>,
+    /// a hash map with a fixed hasher: iteration order is neither insertion nor key order, yet the same
+    /// in every process (one seed, one execution)
+    pub unordered: std::collections::HashMap<String, u64, std::hash::BuildHasherDefault<std::collections::hash_map::DefaultHasher>>,
     #[serde(rename = "zz-renamed")]
     pub renamed: u32,
     #[serde(skip_serializing_if = "Option::is_none", default)]
